@@ -281,6 +281,17 @@ def slice_invariant(ctx, r):
     # every turn puts the thread back (or retires it) through one routine, unconditionally
     r.ob("finish_thread_turn" in uncond or any(m in uncond for m in muts - {"drain_new_threads"}), "vm.rs:run_threads_round_robin:thread-not-returned-every-turn", VM, loop["l"],
          "the popped thread must be handed back to the queue (or retired) after every turn, whether or not it ran", sample="scheduler: finish_thread_turn after every turn")
+    # nothing jumps over the hand-back: a `continue` (or a `break` after the pop) drops the popped thread on the floor
+    jumps = []
+    for i, s_ in enumerate(body_stmts):
+        for x in q.walk(s_):
+            if x["k"] == "Continue":
+                jumps.append(x)
+            elif x["k"] == "Break" and not (s_["k"] == "Local" and s_.get("else") is not None and any(y is x for y in q.walk(s_["else"]))):
+                jumps.append(x)
+    r.ob(not jumps, "vm.rs:run_threads_round_robin:popped-thread-dropped", VM, jumps[0]["l"] if jumps else loop["l"],
+         f"a `{jumps[0]['k'].lower() if jumps else 'continue'}` inside the stepping loop skips the hand-back of the popped thread: a thread that cannot run at its turn (waiting for a host call to be serviced, blocked on a channel) is freed instead of re-queued, and whether that happens depends on how many turns the budget allows before the embedder services the call",
+         sample="scheduler: no continue/break between popping a thread and handing it back")
     # loop-carried locals other than the accounting pair must be reset-free across slices: skipped counter only gates termination
     carried = [q.pat_bindings(s["pat"])[0] for s in stmts[:li] if s["k"] == "Local" and s.get("pat") and q.pat_bindings(s["pat"])]
     used_in_cond = [v for v in carried if v in q.show(loop["c"])]
